@@ -30,9 +30,9 @@ use verif_harness::rng::Rng;
 use verif_harness::world::*;
 
 // ---------------------------------------------------------------- known classes
-const K_CAP: &str = "atr-payout-cap-reads-unfilled-treasury";
 const K_ISSUANCE: &str = "type-issuance-pool";
-const K_DUST: &str = "dust-output-spent-at-window-edge";
+const K_AGED: &str = "pooled-input-ages-past-window";
+const K_ZEROGT: &str = "zero-key-ticket-passes-screen";
 const K_LEFTOUT: &str = "left-out-transaction-carried-the-work";
 
 type Rt = tokio::runtime::Runtime;
@@ -48,6 +48,11 @@ enum Item {
     Conflict,
     /// spends an output that the next block rebroadcasts
     Clash { payer: usize, fee: u64 },
+    /// spends an output of block tip+1-genesis_period: the oldest the next block may still spend;
+    /// `dust`: one of less than 1000 nolan
+    EdgeSpend { payer: usize, fee: u64, dust: bool },
+    /// transfer that also creates an output of 60 nolan for the payer
+    MakeDust { payer: usize },
     Issuance,
     /// BlockStake-typed transaction of a payer (not the producer's wallet)
     ForeignStake { payer: usize },
@@ -59,6 +64,8 @@ enum GtSpec {
     Valid,
     Invalid,
     Stale,
+    /// solves the tip but names the all-zero key as miner
+    ZeroKey,
 }
 
 #[derive(Clone, Debug)]
@@ -66,6 +73,12 @@ struct RoundSpec {
     items: Vec<Item>,
     /// a block of the second node confirms everything pooled so far (after `items`)
     peer_block: bool,
+    /// the second node produces the next block from a transfer of its own making: the tip advances
+    /// and the producer's pool stays as it is (after `items`)
+    peer_own: bool,
+    /// a second transaction spending an input of a pooled transaction is put straight into
+    /// Mempool.transactions (past the intake): Block::create's double-spend detection must fire
+    inject_conflict: bool,
     /// the second chain [A', B'] on the tip's parent replaces the tip; A' spends the input of a
     /// transaction pooled just before (after `items`)
     fork: bool,
@@ -110,6 +123,10 @@ struct Rig {
     debug: bool,
     /// the longest chain, blocks as they were handed over (before add_block set in-memory flags)
     history: Vec<Block>,
+    /// interned utxoset key -> block id it names
+    key_blocks: BTreeMap<u64, u64>,
+    /// signature of a transaction injected past the intake in this round
+    injected: Option<saito_core::core::defs::SaitoSignature>,
 }
 
 fn ty_code(t: TransactionType) -> &'static str {
@@ -194,6 +211,8 @@ impl Rig {
             stats: BTreeMap::new(),
             debug,
             history: vec![g.clone()],
+            key_blocks: BTreeMap::new(),
+            injected: None,
         };
         let a = bo(&r.rt, r.prod.add_block(g.clone()));
         let b = bo(&r.rt, r.peer.add_block(g));
@@ -355,6 +374,41 @@ impl Rig {
                     ));
                 }
             }
+            Item::EdgeSpend { payer, fee, dust } => {
+                let tipid = self.prod.blockchain.get_latest_block_id();
+                let gp = self.params.genesis_period;
+                if tipid + 1 < gp + 1 {
+                    return;
+                }
+                let edge = tipid + 1 - gp;
+                let f: Vec<Slip> = self.free(*payer, false).into_iter().filter(|s| s.block_id == edge && (s.amount < 1000) == *dust).collect();
+                if let Some(sl) = f.first().cloned() {
+                    self.used.insert(Rig::key_of(&sl));
+                    let tx = self.build_transfer(&sl, *payer, *fee, 1);
+                    let ok = self.submit(tx);
+                    self.stat(&format!("pool-item:spends-oldest-spendable-output:{}", if ok { "pooled" } else { "refused" }));
+                    log.push(format!(
+                        "{{\"op\":\"spend-oldest-spendable-output\",\"payer\":{},\"input\":\"{}:{}:{} amount {}\",\"fee\":{},\"pooled\":{}}}",
+                        payer, sl.block_id, sl.tx_ordinal, sl.slip_index, sl.amount, (*fee).min(sl.amount), ok
+                    ));
+                }
+            }
+            Item::MakeDust { payer } => {
+                let mut f = self.free(*payer, false);
+                f.sort_by_key(|s| std::cmp::Reverse(s.amount));
+                if let Some(sl) = f.first().cloned() {
+                    if sl.amount > 30_000 {
+                        self.used.insert(Rig::key_of(&sl));
+                        self.nonce += 1;
+                        let outs = vec![(self.keys[*payer].0, 60u64), (self.keys[*payer].0, sl.amount - 60 - 20_000)];
+                        let mut tx = make_tx(&[sl.clone()], &outs, &self.keys[*payer].1, 5_000_000 + self.nonce);
+                        let (fpk, fsk) = self.keys[*payer];
+                        tx.add_hop(&fsk, &fpk, &self.keys[0].0);
+                        let ok = self.submit(tx);
+                        log.push(format!("{{\"op\":\"transfer-creating-a-60-nolan-output\",\"payer\":{},\"pooled\":{}}}", payer, ok));
+                    }
+                }
+            }
             Item::Issuance => {
                 self.nonce += 1;
                 let mut tx = Transaction::create_issuance_transaction(self.keys[3].0, 700_000 + self.nonce);
@@ -418,6 +472,7 @@ impl Rig {
                     r = hash(&r);
                 }
             }
+            GtSpec::ZeroKey => mine_golden_ticket(tip.hash, tip.difficulty, [0; 33], self.nonce),
             GtSpec::Stale => {
                 let parent = match self.prod.blockchain.get_block(&tip.previous_block_hash) {
                     Some(p) => p.clone(),
@@ -432,6 +487,34 @@ impl Rig {
         log.push(format!("{{\"op\":\"golden-ticket\",\"kind\":\"{:?}\",\"tip_difficulty\":{}}}", spec, tip.difficulty));
     }
 
+    /// puts a transaction that spends an input of a pooled Normal transaction straight into the
+    /// pub map Mempool.transactions (no validation, no reservation, no work count)
+    fn do_inject(&mut self, log: &mut Vec<String>) {
+        let cand: Option<(Slip, usize)> = {
+            let mut sigs: Vec<_> = self.prod.mempool.transactions.keys().cloned().collect();
+            sigs.sort();
+            let mut found = None;
+            for sg in sigs {
+                let t = &self.prod.mempool.transactions[&sg];
+                if t.transaction_type == TransactionType::Normal && !t.from.is_empty() && t.from[0].amount > 0 {
+                    if let Some(ix) = self.keys.iter().position(|(pk, _)| *pk == t.from[0].public_key) {
+                        found = Some((t.from[0].clone(), ix));
+                        break;
+                    }
+                }
+            }
+            found
+        };
+        if let Some((sl, owner)) = cand {
+            let mut tx = self.build_transfer(&sl, owner, 33, 0);
+            tx.generate(&self.prod.pk, 0, 0);
+            self.injected = Some(tx.signature);
+            self.prod.mempool.transactions.insert(tx.signature, tx);
+            self.stat("pool-item:conflicting-spend-injected-past-the-intake");
+            log.push(format!("{{\"op\":\"conflicting-spend-injected-into-Mempool.transactions\",\"input\":\"{}:{}:{} amount {}\"}}", sl.block_id, sl.tx_ordinal, sl.slip_index, sl.amount));
+        }
+    }
+
     // ------------------------------------------------------------ blocks of other producers
     fn needs_gt(node: &Node, parent: SaitoHash) -> bool {
         !node.blockchain.is_golden_ticket_count_valid(parent, false, false, false)
@@ -439,7 +522,7 @@ impl Rig {
 
     /// the second node produces the next block and puts every pooled Normal transaction of the
     /// producer into it (both nodes add it): the producer's pool is emptied by somebody else's block
-    fn do_peer_block(&mut self, log: &mut Vec<String>, findings: &mut Vec<(String, Option<&'static str>)>) {
+    fn do_peer_block(&mut self, own: bool, log: &mut Vec<String>, findings: &mut Vec<(String, Option<&'static str>)>) {
         if self.params.social_stake > 0 {
             return;
         }
@@ -453,6 +536,17 @@ impl Rig {
             .cloned()
             .collect();
         txs.sort_by_key(|t| t.signature);
+        if own {
+            // a transfer the producer has never seen
+            txs.clear();
+            for p in 2..6usize {
+                if let Some(sl) = self.free(p, false).first().cloned() {
+                    self.used.insert(Rig::key_of(&sl));
+                    txs.push(self.build_transfer(&sl, p, 10, 0));
+                    break;
+                }
+            }
+        }
         // transactions that collide with a rebroadcast of this block would be left out: keep it simple
         let src = self.rebroadcast_source();
         txs.retain(|t| !t.from.iter().any(|s| s.amount > 0 && src > 0 && s.block_id == src));
@@ -474,10 +568,12 @@ impl Rig {
         let r1 = bo(&self.rt, self.prod.add_block(b.clone()));
         let r2 = bo(&self.rt, self.peer.add_block(b.clone()));
         self.stat(&format!("peer-block:{:?}", r1));
-        log.push(format!("{{\"op\":\"peer-block-confirms-pool\",\"txs\":{},\"producer\":\"{:?}\",\"second\":\"{:?}\",\"pool_after\":{},\"cached_work_after\":{}}}", n, r1, r2, self.prod.mempool.transactions.len(), self.prod.mempool.get_routing_work_available()));
+        log.push(format!("{{\"op\":\"peer-block\",\"own_transactions_only\":{},\"txs\":{},\"producer\":\"{:?}\",\"second\":\"{:?}\",\"pool_after\":{},\"cached_work_after\":{}}}", own, n, r1, r2, self.prod.mempool.transactions.len(), self.prod.mempool.get_routing_work_available()));
         if r1 == AddClass::OnChain && r2 == AddClass::OnChain {
             self.history.push(b);
-            self.used.clear();
+            if !own {
+                self.used.clear();
+            }
         } else if r1 != r2 {
             findings.push((format!("the two nodes disagree on a block of the second node: {:?} / {:?}", r1, r2), None));
         }
@@ -585,6 +681,11 @@ impl Rig {
         let sig = self.it.get(&c.signature);
         let inputs: Vec<SaitoUTXOSetKey> = c.from.iter().filter(|s| s.amount > 0).map(|s| s.utxoset_key).collect();
         let in_ids: Vec<u64> = inputs.iter().map(|k| self.it.get(k)).collect();
+        for (k, id) in inputs.iter().zip(in_ids.iter()) {
+            if let Ok(sl) = Slip::parse_slip_from_utxokey(k) {
+                self.key_blocks.insert(*id, sl.block_id);
+            }
+        }
         let atr_slips = if c.transaction_type == TransactionType::ATR {
             c.to.iter().filter(|s| s.slip_type == SlipType::ATR).count() as u64
         } else {
@@ -681,13 +782,20 @@ impl Rig {
             self.apply_item(item, rng, &mut log);
         }
         if spec.peer_block {
-            self.do_peer_block(&mut log, &mut findings);
+            self.do_peer_block(false, &mut log, &mut findings);
+        }
+        if spec.peer_own {
+            self.do_peer_block(true, &mut log, &mut findings);
         }
         if spec.fork {
             self.do_fork(rng, &mut log, &mut findings);
         }
         for item in &spec.items2 {
             self.apply_item(item, rng, &mut log);
+        }
+        self.injected = None;
+        if spec.inject_conflict {
+            self.do_inject(&mut log);
         }
         self.apply_gt(spec.gt, &mut log);
 
@@ -809,10 +917,16 @@ impl Rig {
         let stake_coq = self.coq_opt_tx(&stake_pred);
 
         let mut gt_tbl: Vec<(u64, bool)> = vec![];
+        let mut gt_screen_tbl: Vec<(u64, bool)> = vec![];
         if let Some(t) = &gt_tx {
             let a = self.atx(t);
-            gt_tbl.push((a.id, gt_solves(&t.data, &tip)));
+            gt_tbl.push((a.id, gt_valid(&t.data, &tip)));
+            gt_screen_tbl.push((a.id, gt_solves(&t.data, &tip)));
         }
+        let gt_zero_key = match &gt_tx {
+            Some(t) => gt_solves(&t.data, &tip) && !gt_valid(&t.data, &tip),
+            None => false,
+        };
         // ---- causes of known classes, decided before the outcome is seen
         let gt_invalid = match &gt_tx {
             Some(t) => !gt_solves(&t.data, &tip),
@@ -822,6 +936,14 @@ impl Rig {
         let staked = gp.saturating_mul(tip.avg_nolan_rebroadcast_per_block);
         let multiplier = if staked > 0 { 1 + tip.treasury / staked } else { 1 };
         let src = self.rebroadcast_source();
+        // inputs that Transaction::validate refuses for the next block (bb88717): block_id + gp < next id
+        let aged_pool: Vec<String> = pool_txs
+            .iter()
+            .flat_map(|t| t.from.iter().filter(|s| s.amount > 0 && s.block_id + gp < tip.id + 1).map(|s| format!("{}:{}:{} amount {}", s.block_id, s.tx_ordinal, s.slip_index, s.amount)))
+            .collect();
+        if !aged_pool.is_empty() {
+            self.stat("pool-holds-input-older-than-window");
+        }
         let clash_pool: Vec<u64> = pool_txs
             .iter()
             .flat_map(|t| t.from.iter().filter(|s| s.amount > 0 && src > 0 && s.block_id == src).map(|s| s.amount))
@@ -909,6 +1031,32 @@ impl Rig {
                     };
                     let by_pool = pool_inputs.keys().any(|k| atr_keys.contains(k));
                     let by_stake = stake_keys.iter().any(|k| atr_keys.contains(k));
+                    if self.injected.is_some() {
+                        // the double spend was put there by the harness: create must fail, hand the
+                        // drained transactions back, and bundle_block must rebuild reservations and work
+                        let mut want: BTreeSet<_> = pool_txs.iter().map(|t| t.signature).collect();
+                        if let Some(st) = &stake_pred {
+                            let mut c = st.clone();
+                            c.generate(&self.prod.pk, 0, 0);
+                            if c.validate(&self.prod.blockchain.utxoset, &self.prod.blockchain, true) {
+                                want.insert(st.signature);
+                            }
+                        }
+                        let have: BTreeSet<_> = self.prod.mempool.transactions.keys().cloned().collect();
+                        if want != have {
+                            findings.push((format!("Block::create failed on the injected double spend and the pool was not handed back: {} transactions before, {} after", want.len(), have.len()), None));
+                        }
+                        let sum: u64 = self.prod.mempool.transactions.values().fold(0u64, |a, t| a.wrapping_add(t.total_work_for_me));
+                        if self.prod.mempool.get_routing_work_available() != sum {
+                            findings.push((format!("after the failed create the cached routing work {} is not the work of the pool {}", self.prod.mempool.get_routing_work_available(), sum), None));
+                        }
+                        let keys: BTreeSet<SaitoUTXOSetKey> = self.prod.mempool.transactions.values().flat_map(|t| t.from.iter().map(|s| s.utxoset_key)).collect();
+                        let map: BTreeSet<SaitoUTXOSetKey> = self.prod.mempool.utxo_map.keys().cloned().collect();
+                        if keys != map {
+                            findings.push((format!("after the failed create the reservations ({}) are not the inputs of the pool ({})", map.len(), keys.len()), None));
+                        }
+                        self.stat("create-failed:injected-double-spend");
+                    } else {
                     // since fix 1214e31 create leaves colliding transactions out: a failure is a violation
                     findings.push((
                         format!(
@@ -917,6 +1065,7 @@ impl Rig {
                         ),
                         None,
                     ));
+                    }
                     self.stat(&format!("create-failed:by_pool={}:by_stake={}", by_pool, by_stake));
                     self.used.clear();
                 }
@@ -963,7 +1112,8 @@ impl Rig {
                     }
                     if a.ty == TransactionType::GoldenTicket {
                         if !gt_tbl.iter().any(|(i, _)| *i == a.id) {
-                            gt_tbl.push((a.id, gt_solves(&t.data, &tip)));
+                            gt_tbl.push((a.id, gt_valid(&t.data, &tip)));
+                            gt_screen_tbl.push((a.id, gt_solves(&t.data, &tip)));
                         }
                     }
                 }
@@ -1077,7 +1227,7 @@ impl Rig {
                 let block_gt: Option<&Transaction> =
                     fin.transactions.iter().find(|t| t.transaction_type == TransactionType::GoldenTicket);
                 let block_gt_invalid = match block_gt {
-                    Some(t) => !gt_solves(&t.data, &tip),
+                    Some(t) => !gt_valid(&t.data, &tip),
                     None => false,
                 };
                 let unpaid_expected = if block_gt.is_some() { 0 } else { tip.total_fees };
@@ -1128,7 +1278,6 @@ impl Rig {
                     }
                 };
                 supply_ok = !(supply_panic[0] || supply_panic[1]);
-                let dust_collected = cvc.total_fees_paid_by_nonrebroadcast_atr_transactions;
                 let types: Vec<u64> = fin.transactions.iter().map(|t| t.transaction_type as u64).collect();
                 detail = format!(
                     "block {} txs(types) {:?} producer {:?} second node {:?}; atr multiplier {}; diffs {:?}; create-vs-validate cv {:?}",
@@ -1149,31 +1298,25 @@ impl Rig {
                     causes.push(K_ISSUANCE);
                 }
 
-                // the payout class needs its symptom as well (a rebroadcast that does not validate, or a
-                // difference between header and recomputed values): other causes may be present in the
-                // same round
-                if multiplier > 1 && (n_atr > 0 || cvc.total_rebroadcast_nolan > 0) && (atr_invalid_before || !diffs.is_empty()) {
-                    causes.push(K_CAP);
+                // a pooled transaction whose input has left the window since it was pooled (the pool is
+                // re-validated against the utxoset only): it does not validate in the block
+                if !aged_pool.is_empty() && !invalid_in_block.is_empty() {
+                    causes.push(K_AGED);
+                }
+                if gt_zero_key && block_gt_invalid {
+                    causes.push(K_ZEROGT);
                 }
                 // fix 1214e31 leaves out pooled transactions that collide with a rebroadcast, after the
                 // gate has counted their routing work
                 let left_out = pool_txs.iter().filter(|t| !fin.transactions.iter().any(|b| b.signature == t.signature)).count();
-                if !clash_pool.is_empty() && left_out > 0 && fin.total_work < work_needed && cached_work >= work_needed {
+                if !aged_pool.is_empty() && left_out > 0 && fin.total_work < work_needed && cached_work >= work_needed {
                     causes.push(K_LEFTOUT);
                 }
                 if outcome == Outcome::Split {
                     findings.push((format!("the two nodes disagree on the produced block: producer {:?}, second node {:?}", r1, r2), None));
                 }
                 if r1 == AddClass::Panicked || r2 == AddClass::Panicked {
-                    if supply_panic[0] && supply_panic[1] && !clash_pool.is_empty() && dust_collected > 0 {
-                        findings.push((
-                            format!(
-                                "the produced block {} validates on both nodes and then Blockchain::check_total_supply panics on both: a pooled transaction spends output(s) {:?} of block {}, which this block does not rebroadcast but collects as fees ({} nolan from non-rebroadcast outputs)",
-                                fin.id, clash_pool, src, dust_collected
-                            ),
-                            Some(K_DUST),
-                        ));
-                    } else {
+                    {
                         findings.push(("add_block panicked on the produced block".to_string(), None));
                     }
                 }
@@ -1256,7 +1399,7 @@ impl Rig {
                 ">=2hb"
             }
         ));
-        self.stat(&format!("gt-for-tip:{}", if gt_tx.is_none() { "absent" } else if gt_invalid { "invalid-solution" } else { "valid" }));
+        self.stat(&format!("gt-for-tip:{}", if gt_tx.is_none() { "absent" } else if gt_invalid { "invalid-solution" } else if gt_zero_key { "zero-key" } else { "valid" }));
         self.stat(&format!("depth:{}", if tip.id + 1 <= gp + 1 { "before-window-wraps" } else if tip.id + 1 <= 2 * gp + 2 { "first-lap" } else { "later-laps" }));
         self.stat(&format!("work-needed:{}", if work_needed == 0 { "0" } else if work_needed <= cached_work { "<=pool-work" } else { ">pool-work" }));
         if !clash_pool.is_empty() {
@@ -1266,8 +1409,31 @@ impl Rig {
             self.stat("own-stake-spends-output-due-for-rebroadcast");
         }
 
+        if let Some(sig) = self.injected.take() {
+            // take the injected transaction out again so that the scenario can go on
+            // (the staking transaction that a failed create hands back goes with it: a pool that holds a
+            // double spend is a state only the harness can make, and a second staking transaction in the
+            // next block would be a consequence of it)
+            let stakes: Vec<_> = self
+                .prod
+                .mempool
+                .transactions
+                .iter()
+                .filter(|(_, t)| t.transaction_type == TransactionType::BlockStake)
+                .map(|(k, _)| *k)
+                .collect();
+            let mut changed = self.prod.mempool.transactions.remove(&sig).is_some();
+            for k in stakes {
+                changed |= self.prod.mempool.transactions.remove(&k).is_some();
+            }
+            if changed {
+                self.prod.mempool.rebuild_utxo_map();
+            }
+        }
+        let key_block_tbl: Vec<(u64, u64)> = self.key_blocks.iter().map(|(k, b)| (*k, *b)).collect();
+        self.key_blocks.clear();
         let coq = format!(
-            "mkRC ({}) ({}) {} {} {} {} {} ({}) ({}) {} {} {} {} {} {}",
+            "mkRC ({}) ({}) {} {} {} {} {} ({}) ({}) {} {} {} {} {} {} {} {} {}",
             view,
             pool,
             self.it.get(&self.prod.pk.to_vec()),
@@ -1279,6 +1445,9 @@ impl Rig {
             cv_v,
             gal::list(&valid_tbl.iter().map(|(i, b)| format!("({}, {})", i, gal::boolean(*b))).collect::<Vec<_>>()),
             gal::list(&gt_tbl.iter().map(|(i, b)| format!("({}, {})", i, gal::boolean(*b))).collect::<Vec<_>>()),
+            gal::list(&gt_screen_tbl.iter().map(|(i, b)| format!("({}, {})", i, gal::boolean(*b))).collect::<Vec<_>>()),
+            gal::list(&key_block_tbl.iter().map(|(k, b)| format!("({}, {})", k, b)).collect::<Vec<_>>()),
+            gp,
             hchain_tbl,
             mroot_tbl,
             gal::boolean(supply_ok),
@@ -1308,7 +1477,7 @@ fn panic_text(e: &Box<dyn std::any::Any + Send>) -> String {
     e.downcast_ref::<String>().cloned().or_else(|| e.downcast_ref::<&str>().map(|s| s.to_string())).unwrap_or_default()
 }
 
-/// Block::validate's golden ticket check: the ticket re-created on the parent's hash
+/// the solution check (Mempool::golden_ticket_solves_tip and part of Block::validate): the ticket re-created on the parent's hash
 fn gt_solves(data: &[u8], parent: &Block) -> bool {
     if data.len() != 97 {
         return false;
@@ -1316,6 +1485,11 @@ fn gt_solves(data: &[u8], parent: &Block) -> bool {
     let random: SaitoHash = data[32..64].try_into().unwrap();
     let pk: SaitoPublicKey = data[64..97].try_into().unwrap();
     GoldenTicket::create(parent.hash, random, pk).validate(parent.difficulty)
+}
+
+/// Block::validate since b8552b5: solves the tip and does not name the all-zero key
+fn gt_valid(data: &[u8], parent: &Block) -> bool {
+    gt_solves(data, parent) && data[64..97].iter().any(|b| *b != 0)
 }
 
 fn fee_class(fee: u64) -> &'static str {
@@ -1419,7 +1593,13 @@ fn random_spec(rig: &Rig, plan: &Plan, rng: &mut Rng, round: usize) -> RoundSpec
                     GtSpec::Valid
                 }
             }
-            3 => GtSpec::Stale,
+            3 => {
+                if rng.chance(1, 2) {
+                    GtSpec::Stale
+                } else {
+                    GtSpec::ZeroKey
+                }
+            }
             _ => {
                 if need_gt {
                     GtSpec::Valid
@@ -1459,7 +1639,9 @@ fn random_spec(rig: &Rig, plan: &Plan, rng: &mut Rng, round: usize) -> RoundSpec
     };
     let _ = round;
     // other producers: the second node confirms the pool, or a two-block branch replaces the tip
+    let inject_conflict = rng.chance(1, 40);
     let mut peer_block = false;
+    let mut peer_own = false;
     let mut fork = false;
     let mut items2 = vec![];
     if plan.stake == 0 && round >= 2 {
@@ -1468,6 +1650,9 @@ fn random_spec(rig: &Rig, plan: &Plan, rng: &mut Rng, round: usize) -> RoundSpec
                 peer_block = true;
                 items2.push(Item::Transfer { payer: rng.range(2, 5) as usize, fee: *rng.pick(&[0u64, 20, 300, 30_000]), hops: 1, biggest: false });
             }
+            2 => {
+                peer_own = true;
+            }
             1 => {
                 fork = true;
                 items2.push(Item::Transfer { payer: rng.range(2, 5) as usize, fee: pick_fee(rng), hops: rng.below(3) as usize, biggest: false });
@@ -1475,7 +1660,7 @@ fn random_spec(rig: &Rig, plan: &Plan, rng: &mut Rng, round: usize) -> RoundSpec
             _ => {}
         }
     }
-    RoundSpec { peer_block, fork, items2, items, gt, gap, label }
+    RoundSpec { inject_conflict, peer_own, peer_block, fork, items2, items, gt, gap, label }
 }
 
 fn scripted_spec(rig: &Rig, plan: &Plan, round: usize) -> Option<RoundSpec> {
@@ -1491,12 +1676,12 @@ fn scripted_spec(rig: &Rig, plan: &Plan, round: usize) -> Option<RoundSpec> {
         // the payout multiplier: large fees, tiny outputs looping, ticket every other block
         0 => {
             let items = (2..6usize).map(|p| Item::Transfer { payer: p, fee: 20_000, hops: 1, biggest: true }).collect();
-            Some(RoundSpec { peer_block: false, fork: false, items2: vec![], items, gt: if round % 2 == 1 { GtSpec::Valid } else { GtSpec::None }, gap: big, label: "dust-profile".to_string() })
+            Some(RoundSpec { inject_conflict: false, peer_own: false, peer_block: false, fork: false, items2: vec![], items, gt: if round % 2 == 1 { GtSpec::Valid } else { GtSpec::None }, gap: big, label: "dust-profile".to_string() })
         }
         // an invalid golden ticket once the difficulty is positive
         1 => {
             let gt = if tip.difficulty >= 2 { GtSpec::Invalid } else { GtSpec::Valid };
-            Some(RoundSpec { peer_block: false, fork: false, items2: vec![], items: plain_items, gt, gap: big, label: if gt == GtSpec::Invalid { "invalid-golden-ticket".to_string() } else { "warm-up".to_string() } })
+            Some(RoundSpec { inject_conflict: false, peer_own: false, peer_block: false, fork: false, items2: vec![], items: plain_items, gt, gap: big, label: if gt == GtSpec::Invalid { "invalid-golden-ticket".to_string() } else { "warm-up".to_string() } })
         }
         // issuance-typed transaction in the pool
         2 => {
@@ -1504,7 +1689,7 @@ fn scripted_spec(rig: &Rig, plan: &Plan, round: usize) -> Option<RoundSpec> {
             if round == 2 {
                 items.push(Item::Issuance);
             }
-            Some(RoundSpec { peer_block: false, fork: false, items2: vec![], items, gt: if round % 2 == 1 { GtSpec::Valid } else { GtSpec::None }, gap: big, label: "issuance".to_string() })
+            Some(RoundSpec { inject_conflict: false, peer_own: false, peer_block: false, fork: false, items2: vec![], items, gt: if round % 2 == 1 { GtSpec::Valid } else { GtSpec::None }, gap: big, label: "issuance".to_string() })
         }
         // timestamp not after the tip's (bundle_block must decline, not panic)
         3 => {
@@ -1513,7 +1698,7 @@ fn scripted_spec(rig: &Rig, plan: &Plan, round: usize) -> Option<RoundSpec> {
                 3 => -1000,
                 _ => big,
             };
-            Some(RoundSpec { peer_block: false, fork: false, items2: vec![], items: plain_items, gt: if round % 2 == 1 { GtSpec::Valid } else { GtSpec::None }, gap, label: "timestamp-order".to_string() })
+            Some(RoundSpec { inject_conflict: false, peer_own: false, peer_block: false, fork: false, items2: vec![], items: plain_items, gt: if round % 2 == 1 { GtSpec::Valid } else { GtSpec::None }, gap, label: "timestamp-order".to_string() })
         }
         // a pooled transaction spends an output that the next block rebroadcasts
         4 => {
@@ -1521,17 +1706,17 @@ fn scripted_spec(rig: &Rig, plan: &Plan, round: usize) -> Option<RoundSpec> {
             if rig.rebroadcast_source() > 0 && round % 3 == 0 {
                 items.push(Item::Clash { payer: 5, fee: 500 });
             }
-            Some(RoundSpec { peer_block: false, fork: false, items2: vec![], items, gt: if round % 2 == 1 { GtSpec::Valid } else { GtSpec::None }, gap: big, label: "rebroadcast-clash".to_string() })
+            Some(RoundSpec { inject_conflict: false, peer_own: false, peer_block: false, fork: false, items2: vec![], items, gt: if round % 2 == 1 { GtSpec::Valid } else { GtSpec::None }, gap: big, label: "rebroadcast-clash".to_string() })
         }
         // staking on, window of 3: the producer's own staking transaction
-        5 => Some(RoundSpec { peer_block: false, fork: false, items2: vec![], items: plain_items, gt: if round % 2 == 1 { GtSpec::Valid } else { GtSpec::None }, gap: big, label: "staking".to_string() }),
+        5 => Some(RoundSpec { inject_conflict: false, peer_own: false, peer_block: false, fork: false, items2: vec![], items: plain_items, gt: if round % 2 == 1 { GtSpec::Valid } else { GtSpec::None }, gap: big, label: "staking".to_string() }),
         // staking on, BlockStake-typed transaction from a peer
         6 => {
             let mut items = plain_items;
             if round == 2 {
                 items.push(Item::ForeignStake { payer: 5 });
             }
-            Some(RoundSpec { peer_block: false, fork: false, items2: vec![], items, gt: if round % 2 == 1 { GtSpec::Valid } else { GtSpec::None }, gap: big, label: "foreign-stake".to_string() })
+            Some(RoundSpec { inject_conflict: false, peer_own: false, peer_block: false, fork: false, items2: vec![], items, gt: if round % 2 == 1 { GtSpec::Valid } else { GtSpec::None }, gap: big, label: "foreign-stake".to_string() })
         }
         // somebody else's block empties the pool, then a transaction with little work arrives and the
         // producer is polled inside the work-gated window
@@ -1540,6 +1725,8 @@ fn scripted_spec(rig: &Rig, plan: &Plan, round: usize) -> Option<RoundSpec> {
                 Some(RoundSpec {
                     items: vec![Item::Transfer { payer: 2, fee: 50_000, hops: 1, biggest: false }, Item::Transfer { payer: 3, fee: 40_000, hops: 1, biggest: false }],
                     peer_block: true,
+                    peer_own: false,
+                    inject_conflict: false,
                     fork: false,
                     items2: vec![Item::Transfer { payer: 4, fee: 30, hops: 1, biggest: false }],
                     gt: GtSpec::None,
@@ -1547,7 +1734,7 @@ fn scripted_spec(rig: &Rig, plan: &Plan, round: usize) -> Option<RoundSpec> {
                     label: "peer-block-empties-pool".to_string(),
                 })
             } else {
-                Some(RoundSpec { peer_block: false, fork: false, items2: vec![], items: plain_items, gt: if round % 2 == 1 { GtSpec::Valid } else { GtSpec::None }, gap: big, label: "warm-up".to_string() })
+                Some(RoundSpec { inject_conflict: false, peer_own: false, peer_block: false, fork: false, items2: vec![], items: plain_items, gt: if round % 2 == 1 { GtSpec::Valid } else { GtSpec::None }, gap: big, label: "warm-up".to_string() })
             }
         }
         // a reorganisation whose FIRST block spends the input of a pooled transaction
@@ -1556,6 +1743,8 @@ fn scripted_spec(rig: &Rig, plan: &Plan, round: usize) -> Option<RoundSpec> {
                 Some(RoundSpec {
                     items: vec![],
                     peer_block: false,
+                    peer_own: false,
+                    inject_conflict: false,
                     fork: true,
                     items2: vec![Item::Transfer { payer: 2, fee: 300, hops: 1, biggest: false }],
                     gt: GtSpec::Valid,
@@ -1563,17 +1752,40 @@ fn scripted_spec(rig: &Rig, plan: &Plan, round: usize) -> Option<RoundSpec> {
                     label: "fork-invalidates-pooled-tx".to_string(),
                 })
             } else {
-                Some(RoundSpec { peer_block: false, fork: false, items2: vec![], items: plain_items, gt: if round % 2 == 1 { GtSpec::Valid } else { GtSpec::None }, gap: big, label: "warm-up".to_string() })
+                Some(RoundSpec { inject_conflict: false, peer_own: false, peer_block: false, fork: false, items2: vec![], items: plain_items, gt: if round % 2 == 1 { GtSpec::Valid } else { GtSpec::None }, gap: big, label: "warm-up".to_string() })
             }
         }
-        // the only routing work of the pool sits in a transaction that create leaves out
+        // the only routing work of the pool sits in a transaction whose input leaves the window while
+        // it is pooled (another producer's block arrives): create leaves it out
         10 => {
-            if rig.rebroadcast_source() > 0 && round % 2 == 0 {
-                let items = vec![Item::Clash { payer: 5, fee: 60_000 }, Item::Transfer { payer: 4, fee: 0, hops: 0, biggest: false }];
-                Some(RoundSpec { peer_block: false, fork: false, items2: vec![], items, gt: GtSpec::None, gap: (hb + hb / 2) as i64, label: "left-out-transaction-carried-the-work".to_string() })
+            if tip.id + 1 > plan.gp + 1 && round % 2 == 0 {
+                let items = vec![Item::EdgeSpend { payer: 2, fee: 60_000, dust: false }, Item::Transfer { payer: 4, fee: 0, hops: 0, biggest: false }];
+                Some(RoundSpec { inject_conflict: false, peer_own: true, peer_block: false, fork: false, items2: vec![], items, gt: GtSpec::None, gap: (hb + hb / 2) as i64, label: "pooled-input-ages-and-carried-the-work".to_string() })
             } else {
-                Some(RoundSpec { peer_block: false, fork: false, items2: vec![], items: plain_items, gt: if round % 2 == 1 { GtSpec::Valid } else { GtSpec::None }, gap: big, label: "warm-up".to_string() })
+                Some(RoundSpec { inject_conflict: false, peer_own: false, peer_block: false, fork: false, items2: vec![], items: plain_items, gt: if round % 2 == 1 { GtSpec::Valid } else { GtSpec::None }, gap: big, label: "warm-up".to_string() })
             }
+        }
+        // a tiny output is spent by a transaction that is still pooled when the output leaves the window
+        13 => {
+            let mut items: Vec<Item> = (2..5usize).map(|p| Item::Transfer { payer: p, fee: 20_000, hops: 1, biggest: true }).collect();
+            items.push(Item::MakeDust { payer: 5 });
+            if tip.id + 1 > plan.gp + 2 && round % 3 == 0 {
+                items.push(Item::EdgeSpend { payer: 5, fee: 10, dust: true });
+                Some(RoundSpec { inject_conflict: false, peer_own: true, peer_block: false, fork: false, items2: vec![], items, gt: GtSpec::None, gap: big, label: "pooled-dust-input-ages".to_string() })
+            } else {
+                Some(RoundSpec { inject_conflict: false, peer_own: false, peer_block: false, fork: false, items2: vec![], items, gt: if round % 2 == 1 { GtSpec::Valid } else { GtSpec::None }, gap: big, label: "warm-up".to_string() })
+            }
+        }
+        // a double spend inside the pool (injected past the intake): Block::create must fail and
+        // hand the pool back
+        15 => {
+            let inject = round == 2 || round == 5;
+            Some(RoundSpec { inject_conflict: inject, peer_own: false, peer_block: false, fork: false, items2: vec![], items: plain_items, gt: if round % 2 == 1 { GtSpec::Valid } else { GtSpec::None }, gap: big, label: if inject { "double-spend-in-pool".to_string() } else { "warm-up".to_string() } })
+        }
+        // a ticket that solves the tip but names the all-zero key
+        14 => {
+            let gt = if round == 3 { GtSpec::ZeroKey } else if round % 2 == 1 { GtSpec::Valid } else { GtSpec::None };
+            Some(RoundSpec { inject_conflict: false, peer_own: false, peer_block: false, fork: false, items2: vec![], items: plain_items, gt, gap: big, label: if round == 3 { "zero-key-ticket".to_string() } else { "warm-up".to_string() } })
         }
         // dust genesis: a payer spends a tiny output in the block in which it is due
         9 => {
@@ -1581,7 +1793,7 @@ fn scripted_spec(rig: &Rig, plan: &Plan, round: usize) -> Option<RoundSpec> {
             if rig.rebroadcast_source() == 1 {
                 items.push(Item::Clash { payer: 2, fee: 500 });
             }
-            Some(RoundSpec { peer_block: false, fork: false, items2: vec![], items, gt: if round % 2 == 1 { GtSpec::Valid } else { GtSpec::None }, gap: big, label: "dust-spend".to_string() })
+            Some(RoundSpec { inject_conflict: false, peer_own: false, peer_block: false, fork: false, items2: vec![], items, gt: if round % 2 == 1 { GtSpec::Valid } else { GtSpec::None }, gap: big, label: "dust-spend".to_string() })
         }
         // plain deep chain, work decided by the gate (gaps below two heartbeats)
         7 => {
@@ -1591,7 +1803,7 @@ fn scripted_spec(rig: &Rig, plan: &Plan, round: usize) -> Option<RoundSpec> {
                 2 => (2 * hb - 1) as i64,
                 _ => big,
             };
-            Some(RoundSpec { peer_block: false, fork: false, items2: vec![], items: plain_items, gt: if round % 2 == 1 { GtSpec::Valid } else { GtSpec::None }, gap, label: "work-gated".to_string() })
+            Some(RoundSpec { inject_conflict: false, peer_own: false, peer_block: false, fork: false, items2: vec![], items: plain_items, gt: if round % 2 == 1 { GtSpec::Valid } else { GtSpec::None }, gap, label: "work-gated".to_string() })
         }
         _ => None,
     }
@@ -1644,7 +1856,7 @@ fn run_scenario(plan: &Plan, debug: bool) -> ScenarioOut {
                 let mut recovered = false;
                 let mut last = res.outcome;
                 for k in 0..3 {
-                    let retry = RoundSpec { peer_block: false, fork: false, items2: vec![], items: vec![], gt: GtSpec::None, gap: spec.gap.max(1) + 7 * (k + 1), label: format!("retry-{}", k + 1) };
+                    let retry = RoundSpec { inject_conflict: false, peer_own: false, peer_block: false, fork: false, items2: vec![], items: vec![], gt: GtSpec::None, gap: spec.gap.max(1) + 7 * (k + 1), label: format!("retry-{}", k + 1) };
                     let r = rig.exec_round(&retry, &mut rng);
                     round += 1;
                     coq.push(format!("({})", r.coq));
@@ -1665,9 +1877,8 @@ fn run_scenario(plan: &Plan, debug: bool) -> ScenarioOut {
                     let known: Vec<&'static str> = findings.iter().filter_map(|f| f.1).collect();
                     let what = format!("producer liveness: the own block was rejected and 3 further attempts ended {:?}", last);
                     if last == Outcome::Rejected || last == Outcome::Split {
-                        if false {
-                        } else if known.contains(&K_CAP) {
-                            findings.push((format!("{} -- every child of this tip carries the same rebroadcasts", what), Some(K_CAP)));
+                        if known.contains(&K_ZEROGT) {
+                            findings.push((format!("{} -- the ticket naming the all-zero key passes bundle_block's screen every time", what), Some(K_ZEROGT)));
                         } else {
                             findings.push((what, None));
                         }
@@ -1729,6 +1940,9 @@ fn main() {
         Plan { kind: 10, seed: 0, gp: 3, stake: 0, hb: 10_000, profile: 0, target_blocks: 9, adversarial: 0 },
         Plan { kind: 11, seed: 0, gp: 5, stake: 0, hb: 10_000, profile: 0, target_blocks: 12, adversarial: 0 },
         Plan { kind: 12, seed: 0, gp: 5, stake: 0, hb: 10_000, profile: 0, target_blocks: 14, adversarial: 0 },
+        Plan { kind: 13, seed: 0, gp: 3, stake: 0, hb: 10_000, profile: 0, target_blocks: 12, adversarial: 0 },
+        Plan { kind: 14, seed: 0, gp: 5, stake: 0, hb: 10_000, profile: 0, target_blocks: 7, adversarial: 0 },
+        Plan { kind: 15, seed: 0, gp: 3, stake: 50_000, hb: 10_000, profile: 0, target_blocks: 8, adversarial: 0 },
     ];
     for _ in 0..nrandom {
         let gp = *rng.pick(&[3u64, 3, 5, 5, 8, 8, 20]);
@@ -1782,7 +1996,7 @@ fn main() {
                 if o.nontrivial && distinct.insert(o.coq.clone()) {
                     summary.nontrivial += 1;
                 }
-                if summary.samples.len() < 3 && o.rounds > 3 && idx >= 13 {
+                if summary.samples.len() < 3 && o.rounds > 3 && idx >= 16 {
                     summary.samples.push(o.desc.clone());
                 }
                 summary.case_descs.push(o.desc);
